@@ -314,6 +314,12 @@ def rule_scancap(facts):
     return r
 
 
+def _flags(facts):
+    """per-batch join match flags (see rules/c06.py): a flag vector that survives a batch makes the result depend on batch_size"""
+    from .c06 import rule_flags
+    return rule_flags(facts, rule="C03-FLAGS")
+
+
 def run(ctx):
     facts = ctx["facts"]
     from .c08 import rule_idxspace
@@ -323,7 +329,7 @@ def run(ctx):
     from .c14 import rule_cursor
     # chunked appends only span several chunks for some batch sizes (batch_size > chunk capacity): a cursor that is not advanced
     # leaves default settings intact and corrupts table contents only for other configurations
-    return [rule_range(facts), rule_count(facts), rule_limit(facts), merge, rule_cursor(facts, "C03-APPENDCUR", ["glaredb_core"], 1), rule_scancap(facts)]
+    return [rule_range(facts), rule_count(facts), rule_limit(facts), merge, rule_cursor(facts, "C03-APPENDCUR", ["glaredb_core"], 1), rule_scancap(facts), _flags(facts)]
 
 
 CLAIM = {
@@ -332,7 +338,8 @@ CLAIM = {
             "These make the configuration space finite and ≥ 1 and tie every barrier to the actual partition count for all plans; equality "
             "of results across configurations is a value statement and is not decided. Plus a must-write rule for the LIMIT/OFFSET budget that all "
             "partitions share (every path that skips or emits rows updates it), the one operator whose output depends on a cross-partition counter. Plus the index-space rule of the run-merge comparators (shared with C08-IDXSPACE): merging only happens with several runs, so a key/heap index mix-up there changes results only for some partition counts / batch sizes. And the chunked-append cursor pairing (shared with C14-CURSOR): appends span several chunks only for some batch sizes."
-            " Plus SCANCAP: the collection scan returns at most the output batch's write capacity per call (found by a hunting agent, repaired).",
+            " Plus SCANCAP: the collection scan returns at most the output batch's write capacity per call (found by a hunting agent, repaired)."
+            " Plus FLAGS (shared with C06): per-batch join match flags are reset for every batch, so RIGHT JOIN results do not depend on batch_size.",
     "note": "trusted: rustc MIR; barrier API list in rules/c03.py (DelayedPartitionCount::set, PartitionWakers::init_for_partitions, waker Vec::resize, remaining_inputs)",
     "technique": "static analysis: MIR dominance with constant-interval derivation + provenance (rustc_private driver)",
 }
